@@ -767,11 +767,19 @@ impl Session {
                     return (Ans::BadOp, vec![]);
                 };
                 let tr = truthful_oneshot_encode(k, r, &l);
-                match guard(|| reed_solomon_simd::encode(k, r, &l)) {
-                    Ok(Ok(out)) => (Ans::Ok(show_shards(&out)), tr),
-                    Ok(Err(e)) => (Ans::Err(show_err(&e)), tr),
-                    Err(p) => (Ans::Panic(p), tr),
+                let show = |r: Result<Result<Vec<Vec<u8>>, Error>, String>| match r {
+                    Ok(Ok(out)) => Ans::Ok(show_shards(&out)),
+                    Ok(Err(e)) => Ans::Err(show_err(&e)),
+                    Err(p) => Ans::Panic(p),
+                };
+                let a = show(guard(|| reed_solomon_simd::encode(k, r, &l)));
+                let a2 = show(guard(|| reed_solomon_simd::encode(k, r, l.iter().filter(|_| true))));
+                if a.line() != a2.line() {
+                    self.complaints.push(format!(
+                        "one-shot encode answers `{}` for a slice but `{}` for the same items through a filter adaptor",
+                        crate::ctx::short(&a.line()), crate::ctx::short(&a2.line())));
                 }
+                (a, tr)
             }
             ["X", "decode", k, r, o, rc] => {
                 let (Some(k), Some(r), Some(o), Some(rc)) = (num(k), num(r), parse_indexed(o), parse_indexed(rc)) else {
@@ -780,15 +788,27 @@ impl Session {
                 let tr = truthful_oneshot_decode(k, r, &o, &rc);
                 let oi = o.iter().map(|(i, s)| (*i, s.as_slice()));
                 let ri = rc.iter().map(|(i, s)| (*i, s.as_slice()));
-                match guard(|| reed_solomon_simd::decode(k, r, oi, ri)) {
+                let show = |r: Result<Result<std::collections::HashMap<usize, Vec<u8>>, Error>, String>| match r {
                     Ok(Ok(out)) => {
                         let mut v: Vec<(usize, Vec<u8>)> = out.into_iter().collect();
                         v.sort();
-                        (Ans::Ok(show_indexed(&v)), tr)
+                        Ans::Ok(show_indexed(&v))
                     }
-                    Ok(Err(e)) => (Ans::Err(show_err(&e)), tr),
-                    Err(p) => (Ans::Panic(p), tr),
+                    Ok(Err(e)) => Ans::Err(show_err(&e)),
+                    Err(p) => Ans::Panic(p),
+                };
+                let a = show(guard(|| reed_solomon_simd::decode(k, r, oi, ri)));
+                // the same call with iterators whose size_hint lower bound is 0 (filter adaptors):
+                // the result must not depend on the iterator type
+                let oi2 = o.iter().map(|(i, s)| (*i, s.as_slice())).filter(|_| true);
+                let ri2 = rc.iter().map(|(i, s)| (*i, s.as_slice())).filter(|_| true);
+                let a2 = show(guard(|| reed_solomon_simd::decode(k, r, oi2, ri2)));
+                if a.line() != a2.line() {
+                    self.complaints.push(format!(
+                        "one-shot decode answers `{}` for exact-size iterators but `{}` for the same items through a filter adaptor",
+                        crate::ctx::short(&a.line()), crate::ctx::short(&a2.line())));
                 }
+                (a, tr)
             }
             _ => (Ans::BadOp, vec![]),
         }
